@@ -29,7 +29,7 @@ chk=""; chkrc=""
 if [ -n "$CHK" ]; then
   rm -f "$WT"/.demo.out "$WT"/.build.out
   # the demo files stay out of the harness build (they are _test.go files or main packages in their own dirs)
-  chk=$(cd /verif && VERIF_JOBS=${VERIF_JOBS:-6} VERIF_REPO="$WT" timeout 1500 ./check "$CHK" --tier quick 2>/tmp/vs/chk_$$.err | grep -E '^(VIOLATION|KNOWN-FINDING)' | head -5); chkrc=$?
+  chk=$(cd /verif && VERIF_JOBS=${VERIF_JOBS:-6} VERIF_REPO="$WT" timeout 1500 ./check "$CHK" --tier quick 2>/tmp/vs/chk_$$.err | grep -E '^VIOLATION' | head -3); chkrc=$?
 fi
 python3 - "$pre" "$build" "$suite" "$fails" "$chk" <<'E'
 import json,sys
